@@ -1,9 +1,106 @@
+"""C11 — episodes end exactly at the configured time limit / within the structural horizon.
+
+(1) constructors (Engine P): the REAL __init__ of every environment that accepts `time_limit` runs on a symbolic T >= 1 and stores exactly T
+    (RubiksCube additionally rejects T <= 0; Maze / Cleaner / PacMan fall back to their documented default for None);
+(2) per-environment step/reset clauses of the sidecar contracts (contracts/<env>.py, clause names C11.*): counting, never later, never earlier
+    with the time limit a SYMBOLIC scalar injected at trace time (one proof for every T), and variants for the environments without time limit."""
+import z3
+
 from jxv import envdriver
+
+LEVEL = "proof"
+CONFIG_BOUND = "configurations of contracts/envs.py (or the contract module's own list); time_limit unbounded (symbolic) in constructors and in step"
+NOT_VERIFIED = ["never_earlier for environments whose contract module does not state it (see evidence: clause list per environment)",
+                "Environment.__init__ (spec caching) is stubbed while the constructors are explored"]
+ASSUMPTIONS = ["induction over the episode: counting + never_later + never_earlier for every state imply that the first LAST of an episode that does not end "
+               "otherwise is at step number T (lemma over the per-step contracts, not a separate query)"]
+
+
+def _ctors():
+    from jumanji.environments import (MMST, Cleaner, Connector, LevelBasedForaging, Maze, PacMan, RobotWarehouse, RubiksCube, SlidingTilePuzzle, Snake,
+                                      Sokoban, Tetris)
+    from jumanji.environments.logic.rubiks_cube.generator import ScramblingGenerator
+    from jumanji.environments.logic.sliding_tile_puzzle.generator import RandomWalkGenerator as STGen
+    from jumanji.environments.routing.cleaner.generator import RandomGenerator as CGen
+    from jumanji.environments.routing.connector.generator import UniformRandomGenerator as CoU
+    from jumanji.environments.routing.lbf.generator import RandomGenerator as LGen
+    from jumanji.environments.routing.maze.generator import RandomGenerator as MGen
+    from jumanji.environments.routing.robot_warehouse.generator import RandomGenerator as RWGen
+    from jumanji.environments.routing.sokoban.generator import ToyGenerator as SToy
+    return {
+        "RubiksCube": (RubiksCube, lambda T: RubiksCube(ScramblingGenerator(2, 2), time_limit=T), None),
+        "SlidingTilePuzzle": (SlidingTilePuzzle, lambda T: SlidingTilePuzzle(STGen(2, 2), time_limit=T), None),
+        "Tetris": (Tetris, lambda T: Tetris(4, 4, time_limit=T), None),
+        "Cleaner": (Cleaner, lambda T: Cleaner(CGen(3, 5, 1), time_limit=T), 15),
+        "Connector": (Connector, lambda T: Connector(CoU(3, 2), time_limit=T), None),
+        "LevelBasedForaging": (LevelBasedForaging, lambda T: LevelBasedForaging(LGen(6, 2, 2, 2), time_limit=T), None),
+        "Maze": (Maze, lambda T: Maze(MGen(3, 5), time_limit=T), 15),
+        "MMST": (MMST, lambda T: MMST(time_limit=T), None),
+        "PacMan": (PacMan, lambda T: PacMan(time_limit=T), 1000),
+        "RobotWarehouse": (RobotWarehouse, lambda T: RobotWarehouse(RWGen(1, 3, 1, 1, 1, 2), time_limit=T), None),
+        "Snake": (Snake, lambda T: Snake(3, 3, time_limit=T), None),
+        "Sokoban": (Sokoban, lambda T: Sokoban(SToy(), time_limit=T), None),
+    }
+
+
+def run_ctor(ctx, name):
+    import jumanji.env as JE
+    from checks.C16 import Rec
+    from jxv import pyexec as P
+    cls, mk, none_default = _ctors()[name]
+    real_init = JE.Environment.__init__
+    JE.Environment.__init__ = lambda self: None   # spec caching is C01's concern; stubbed (listed under `replaced`)
+    ctx.replaced.append("jumanji.env.Environment.__init__ (spec caching) -> no-op while exploring constructors")
+    try:
+        Eg = P.reset_engine()
+        Tt = z3.Int("T")
+        T = P.SymInt(Tt)
+        R = Rec(ctx, f"{name}.__init__", targets=[cls.__init__])
+        paths = P.explore(lambda: mk(T))
+        R.complete("C11.ctor.paths_complete", paths)
+        ok_paths = [(pc, o[1]) for pc, o in paths if o[0] == "ret"]
+        acc = z3.Or(*[P.pc_term(pc) for pc, _ in ok_paths]) if ok_paths else z3.BoolVal(False)
+
+        def wit(m):
+            v = m.eval(Tt, model_completion=True).as_long()
+            try:
+                env = mk(v)
+                got = env.time_limit
+            except Exception as ex:
+                got = repr(ex)[:100]
+            return {"inputs": {"time_limit": v}, "native_time_limit": str(got), "confirmed": got != v}
+        R.ob("C11.ctor.accepts_every_positive_time_limit", z3.Implies(Tt >= 1, acc), replay=wit)
+        stored = True
+        for pc, env in ok_paths:
+            tl = env.time_limit
+            term = tl.term if isinstance(tl, P.SymInt) else z3.IntVal(int(tl))
+            R.ob(f"C11.ctor.stores_exactly_the_time_limit_passed[{len(pc)}]", z3.Implies(Tt >= 1, term == Tt), extra=pc, replay=wit)
+        if name == "RubiksCube":
+            exc = z3.Or(*[P.pc_term(pc) for pc, o in paths if o[0] == "exc" and isinstance(o[1], ValueError)] or [z3.BoolVal(False)])
+            R.ob("C11.ctor.rejects_non_positive_time_limit_with_ValueError", z3.Implies(Tt <= 0, exc), replay=wit)
+        R.ob("canary.ctor_rejects_every_time_limit", z3.Not(acc), replay=lambda m: {"confirmed": True})
+    finally:
+        JE.Environment.__init__ = real_init
+    if none_default is not None:
+        env = mk(None)
+        ctx.structural(f"{name}.__init__/C11.ctor.None_gives_the_documented_default", env.time_limit == none_default, "native execution (single value)",
+                       detail={"time_limit": int(env.time_limit), "documented": none_default}, targets=[cls.__init__])
+    for v in (1, 2, 3, 7):
+        env = mk(v)
+        ctx.structural(f"{name}.__init__/C11.ctor.native_cross_check[time_limit={v}]", env.time_limit == v, "native execution (cross-check of the proxy run)",
+                       detail={"time_limit": int(env.time_limit)}, witness={"time_limit": v, "stored": int(env.time_limit)})
 
 
 def tasks(tier):
-    return envdriver.tasks("C11", tier)
+    out = envdriver.tasks("C11", tier)
+    for name in _ctors():
+        out[f"ctor:{name}"] = (run_ctor, {"name": name})
+    return out
 
 
-LEVEL_TEXT = "wip"
-LEVEL_NOTE = "wip"
+LEVEL_TEXT = ("Proof: (1) the real constructor of each of the 12 environments that accept a time limit, run on a symbolic T, stores exactly T for every T >= 1 "
+              "(all paths enumerated); (2) with the time limit injected as a symbolic scalar at trace time, the real step satisfies for ALL states, actions and "
+              "T: step_count' = step_count + 1, step_count + 1 >= T => LAST (never later), LAST before T only for the environment's documented other reason "
+              "(never earlier); reset starts the counter at 0; environments without a time limit have a bounded variant that strictly decreases on every MID step.")
+LEVEL_NOTE = ("per-configuration proofs with symbolic T; the 'first LAST is exactly at step T' conclusion is the induction over these per-step contracts; clauses "
+              "per environment are listed in the evidence (environments whose contract lacks never_earlier are named under not_verified).")
